@@ -520,7 +520,8 @@ def _curves(ctx):
         raise AnalysisError("component curves outside the normal-form fragment: %s" % e)
     # validators enforce negative exponents (strictly decreasing finite branches)
     for ck, keys in ((ci, ("d_1", "d_2")), (cj, ("d_RAJ",))):
-        v = prog.lookup_method(ck, "_validate")
+        from ..inline import inlined
+        v = inlined(prog, prog.lookup_method(ck, "_validate"))       # checks may live in shared private helpers
         for k in keys:
             g = [s for s in walk_function(v.node) if isinstance(s, ast.If) and _same_cmp(s.test, "self._obj.%s >= 0" % k)
                  and isinstance(s.body[-1], ast.Raise)]
